@@ -14,6 +14,8 @@ import (
 	"time"
 
 	"github.com/segmentio/kafka-go/zzverif/vhook"
+
+	"verif/engine/racectl"
 )
 
 type Addr struct{ S string }
@@ -54,13 +56,25 @@ type Conn struct {
 	OnClose       func()
 	PointOnWrite  bool
 	closed        bool
+	// Quiet: under the race detector, the synchronisation inside this end's operations is not shown to
+	// the detector (a real socket does not order the goroutines of a process either).
+	Quiet bool
+}
+
+//go:norace
+func (c *Conn) quiet() func() {
+	if c.Quiet {
+		racectl.Off()
+		return racectl.On
+	}
+	return func() {}
 }
 
 // Pipe returns the two ends of a new connection.
 func Pipe(id int, clientAddr, serverAddr string, journal bool) (client, server *Conn) {
 	a, b := newHalf(), newHalf()
 	a.keep, b.keep = journal, journal
-	client = &Conn{in: a, out: b, local: Addr{clientAddr}, remote: Addr{serverAddr}, ID: id}
+	client = &Conn{in: a, out: b, local: Addr{clientAddr}, remote: Addr{serverAddr}, ID: id, Quiet: racectl.Enabled}
 	server = &Conn{in: b, out: a, local: Addr{serverAddr}, remote: Addr{clientAddr}, ID: id}
 	return
 }
@@ -74,7 +88,9 @@ func (timeoutErr) Is(t error) bool { return t == os.ErrDeadlineExceeded }
 
 var ErrTimeout net.Error = timeoutErr{}
 
+//go:norace
 func (c *Conn) Read(p []byte) (int, error) {
+	defer c.quiet()()
 	h := c.in
 	h.mu.Lock()
 	defer h.mu.Unlock()
@@ -116,11 +132,13 @@ func (c *Conn) Read(p []byte) (int, error) {
 	}
 }
 
+//go:norace
 func (c *Conn) Write(p []byte) (int, error) {
 	if c.PointOnWrite {
 		// a writer can be descheduled in the middle of a network write
 		vhook.Point(vhook.KUser, c)
 	}
+	defer c.quiet()()
 	h := c.out
 	h.mu.Lock()
 	defer h.mu.Unlock()
@@ -142,7 +160,9 @@ func (c *Conn) Write(p []byte) (int, error) {
 	return len(p), nil
 }
 
+//go:norace
 func (c *Conn) Close() error {
+	defer c.quiet()()
 	c.once.Do(func() {
 		c.in.mu.Lock()
 		c.in.rclosed = true
@@ -164,7 +184,10 @@ func (c *Conn) Close() error {
 }
 
 // Closed reports whether this end was closed.
+//
+//go:norace
 func (c *Conn) Closed() bool {
+	defer c.quiet()()
 	c.in.mu.Lock()
 	defer c.in.mu.Unlock()
 	return c.in.rclosed
@@ -260,7 +283,9 @@ func (c *Conn) SetDeadline(t time.Time) error {
 	return nil
 }
 
+//go:norace
 func (c *Conn) SetReadDeadline(t time.Time) error {
+	defer c.quiet()()
 	h := c.in
 	h.mu.Lock()
 	defer h.mu.Unlock()
